@@ -73,6 +73,22 @@ def gen_case(rng, ctx):
         sch = gen.scale(ref.PRESETS[rng.choice(["unifying", "pseudodistance", "induced"])], rng.choice([1.0, 1.0, 0.5, 2.0, 3.0]))
         return {"ds": ds, "scheme": sch, "dcls": "trap", "scls": "S2", "libseed": rng.randrange(10 ** 6), "starters": [],
                 "trap": info}
+    if not ctx.params.get("huge") and rng.random() < 0.04:
+        # an incomplete dataset whose FIRST ranking is complete and ties two ints that collide in a small hash table (a copy
+        # of that bucket may iterate in another order): element <-> id correspondences rebuilt from a copy of the rankings
+        # differ from the dataset's own.  A departure ranking with two elements exchanged is repaired by the local search
+        # in all but about one case in 5000 (measured on the seeded change C09f): this class is there for the thorough tier
+        a, b = rng.choice([(3, 11), (5, 13), (7, 15), (3, 19), (11, 19)])
+        others = rng.sample([x for x in range(0, 30) if x not in (a, b)], rng.choice([2, 3, 3, 4]))
+        first = gen.ranking_over(rng, others, rng.choice([0.0, 0.3]))
+        first.insert(rng.randint(0, len(first)), [a, b])
+        ds = [first]
+        for _ in range(rng.choice([3, 4, 5])):
+            sub = [e for e in [a, b] + others if rng.random() >= rng.choice([0.2, 0.4])]
+            ds.append(gen.ranking_over(rng, sub, rng.choice([0.0, 0.3])))
+        sch = [list(v) for v in ref.PRESETS[rng.choice(["unifying_half", "pseudodistance_half", "induced_half", "unifying"])]]
+        return {"ds": ds, "scheme": sch, "dcls": "colliding-tie-in-complete-first-ranking", "scls": "S1",
+                "libseed": rng.randrange(10 ** 6), "starters": []}
     if ctx.params.get("huge"):
         return {"ds": huge_case(rng), "scheme": [list(v) for v in ref.PRESETS["unifying"]], "dcls": "huge", "scls": "S1",
                 "libseed": rng.randrange(10 ** 6), "starters": []}
